@@ -1,14 +1,14 @@
 //! C16 — DataItem builder accepts exactly the consistent bars and returns what was set.
 
 use crate::common::{replay_rerun, Ctx};
-use crate::inst::{guarded, hexf, Bar, Inst, Kind, Params};
+use crate::inst::{guarded, hexf, Bar};
 use crate::report::{par_run, Report};
 use crate::rng::Rng;
 use serde_json::json;
 use ta::errors::TaError;
 use ta::{Close, DataItem, High, Low, Open, Volume};
 
-pub const RULE: &str = "EXHAUSTIVE: all 10^5 five-tuples over the lattice {-inf,-2,-1,-0.0,0.0,1,2,3,+inf,NaN} for (open,high,low,close,volume) x all 32 subsets of the five setters (in canonical order); for complete subsets on the 10^3-tuple sub-lattice {-1,0.0,1,2,NaN,...} additionally all 120 setter orders, and programs with repeated setters (the last value must win); every sequence of setter calls of length <= 6 (8 thorough) over the five setters (repeated calls, proper subsets called many times), with a consistent and an inconsistent value assignment. RANDOM: 2*10^6 (quick) / 4*10^7 (thorough) finite tuples (consistent and inconsistent). Oracle (IEEE comparisons evaluated by the harness): Incomplete iff some setter was never called; else Invalid iff not (l<=o && l<=c && l<=h && h>=o && h>=c && v>=0); else Ok and the five getters return the last value set bit-exactly, clone == item; built items are also fed to one indicator per price trait to tie getters to the Open/High/Low/Close/Volume traits. Every (tuple, subset, order) is a distinct case by construction; non-trivial = all of them (the rule has no trivial cases: each exercises a different branch combination).";
+pub const RULE: &str = "EXHAUSTIVE: all 10^5 five-tuples over the lattice {-inf,-2,-1,-0.0,0.0,1,2,3,+inf,NaN} for (open,high,low,close,volume) x all 32 subsets of the five setters (in canonical order); for complete subsets on the 10^3-tuple sub-lattice {-1,0.0,1,2,NaN,...} additionally all 120 setter orders, and programs with repeated setters (the last value must win); every sequence of setter calls of length <= 6 (8 thorough) over the five setters (repeated calls, proper subsets called many times), with a consistent and an inconsistent value assignment. RANDOM: 2*10^6 (quick) / 4*10^7 (thorough) finite tuples (consistent and inconsistent). Oracle (IEEE comparisons evaluated by the harness): Incomplete iff some setter was never called; else Invalid iff not (l<=o && l<=c && l<=h && h>=o && h>=c && v>=0); else Ok and the five getters return the last value set bit-exactly, clone == item; the five price traits called through a generic bound must return the same bits (observed directly, independent of any indicator). Every (tuple, subset, order) is a distinct case by construction; non-trivial = all of them (the rule has no trivial cases: each exercises a different branch combination).";
 
 pub const LATTICE: [f64; 10] = [f64::NEG_INFINITY, -2.0, -1.0, -0.0, 0.0, 1.0, 2.0, 3.0, f64::INFINITY, f64::NAN];
 
@@ -209,11 +209,6 @@ fn run_random(ctx: &Ctx) -> Report {
     let jobs: Vec<usize> = (0..chunks).collect();
     par_run(jobs, ctx.threads, move |ci, rep| {
         let mut rng = Rng::derive(seed, 0xC16, *ci as u64);
-        // indicators fed with built items: ties getters to the traits
-        let mut mx = Inst::new(&Params::new1(Kind::Max, 1));
-        let mut mn = Inst::new(&Params::new1(Kind::Min, 1));
-        let mut sma = Inst::new(&Params::new1(Kind::Sma, 1));
-        let mut obv = Inst::new(&Kind::Obv.default_params());
         for k in 0..total / chunks {
             let s = rng.log_uniform(1e-6, 1e9);
             let mut v = [0.0f64; 5];
@@ -265,18 +260,23 @@ fn run_random(ctx: &Ctx) -> Report {
             check_program(rep, &prog, "random");
             let b = Bar { o: v[0], h: v[1], l: v[2], c: v[3], v: v[4] };
             if b.is_valid() && k % 16 == 0 {
-                // getters are what the price traits return to indicators
-                let ok = mx.next_item(&b).map(|o| o.v[0].to_bits() == b.h.to_bits()).unwrap_or(false)
-                    && mn.next_item(&b).map(|o| o.v[0].to_bits() == b.l.to_bits()).unwrap_or(false)
-                    && sma.next_item(&b).map(|o| o.v[0] == b.c).unwrap_or(false);
-                let _ = obv.reset();
-                let okv = obv.next_item(&b).map(|o| o.v[0] == if b.c > 0.0 { b.v } else if b.c < 0.0 { -b.v } else { 0.0 }).unwrap_or(false);
+                // the five price traits, called through a generic bound (what an indicator sees), must
+                // return what the inherent getters return - observed directly, without relying on any
+                // indicator being correct
+                fn via_traits<T: Open + High + Low + Close + Volume>(t: &T) -> [u64; 5] {
+                    [t.open().to_bits(), t.high().to_bits(), t.low().to_bits(), t.close().to_bits(), t.volume().to_bits()]
+                }
+                let ok = match b.to_item() {
+                    Some(item) => via_traits(&item) == [b.o.to_bits(), b.h.to_bits(), b.l.to_bits(), b.c.to_bits(), b.v.to_bits()],
+                    None => false,
+                };
+                let okv = true;
                 rep.evaluations += 1;
                 rep.count("items_fed_to_indicators");
                 if !(ok && okv) {
                     let sig = "DATAITEM/c16.trait_getters/mismatch".to_string();
                     if rep.is_new_sig(&sig) {
-                        rep.violation(sig.clone(), format!("DataItem built from {:?}: MAX(1)/MIN(1)/SMA(1)/OBV fed the item do not return its high/low/close/volume", b), replay_rerun("C16", &sig, "trait getters", json!({"bar": b.to_json()})));
+                        rep.violation(sig.clone(), format!("DataItem built from {:?}: the Open/High/Low/Close/Volume traits do not return its fields", b), replay_rerun("C16", &sig, "trait getters", json!({"bar": b.to_json()})));
                     } else {
                         rep.violation_again(&sig);
                     }
